@@ -1,6 +1,6 @@
 --------------------------- MODULE JudgePortsRes ---------------------------
 (* C40, V: one recorded case per evaluation of a generated program
-     [shape, intr, pfail, strict, exc, fd, go, bg]
+     [shape, intr, pfail, flaky, strict, exc, fd, go, bg]
    shape = the program's abstract shape (Ports, part 2), intr = the evaluation was interrupted,
    exc = it raised, fd / go = file descriptors / goroutines above the baseline after it returned
    (settled), bg = it started a background job or opened a file explicitly (never generated).
@@ -18,6 +18,7 @@ Leaks(c) == ~c.bg /\ (c.fd # 0 \/ c.go # 0)
    suppressed for a form writing to its own pipeline but not when it surfaces through peach,
    run-parallel, a loop or a capture nested in that form. *)
 PathOK(c) == \/ c.intr
+             \/ c.flaky        \* raised in one evaluation and not in another: the outcome depends on the schedule (Unspecified)
              \/ (IF c.pfail THEN c.exc                                     \* pfail: a pipe could not be created
                  ELSE IF c.strict THEN c.exc = FailsP(c.shape)
                  ELSE FailsP(c.shape) => c.exc)
